@@ -59,6 +59,12 @@ theorem alias_mutations_classified :
     lru_cache/cache that returns a mutable container) -/
 theorem access_lists_are_fresh : Gen.OrderSites.accessSources = expectedAccessSources := by decide
 
+/-- the variable state of a DvMethod cannot survive into a later `process()` call on the same object:
+    the re-initialisation at the top of `process()` is unconditional (not tied to a previous call having
+    produced output, which an aborted call never does) -/
+theorem process_reinitialises_unconditionally :
+    Gen.OrderSites.processReinit = expectedProcessReinit := by decide
+
 /-! ## A1 compute_end -/
 
 /-- `compute_end` does not depend on the enumeration when at most one node of the interval has a
